@@ -92,8 +92,11 @@ func vpBuild(rt reflect.Type, path []vpStep, leaf *failure122.Failure) reflect.V
 	case "msg":
 		f.Set(vpBuild(f.Type().Elem(), path[1:], leaf))
 	case "list":
+		// a healthy element first, then the one carrying the leaf: a decoder that has consumed complete elements before it
+		// meets the damaged one must not leave traces of them
+		sibling := vpBuild(f.Type().Elem().Elem(), path[1:], &failure122.Failure{Message: "healthy sibling", Source: "src"})
 		child := vpBuild(f.Type().Elem().Elem(), path[1:], leaf)
-		f.Set(reflect.Append(reflect.MakeSlice(f.Type(), 0, 1), child))
+		f.Set(reflect.Append(reflect.Append(reflect.MakeSlice(f.Type(), 0, 2), sibling), child))
 	case "map":
 		child := vpBuild(f.Type().Elem().Elem(), path[1:], leaf)
 		m := reflect.MakeMap(f.Type())
@@ -144,7 +147,7 @@ func vpChainValid(f *failure122.Failure) bool {
 func TestVerifRepairPaths(t *testing.T) {
 	_, w, done := verifIO(t)
 	defer done()
-	roots := map[reflect.Type]bool{}
+	roots := map[reflect.Type]protoreflect.MessageType{}
 	for _, svc := range []string{"temporal.server.api.adminservice.v1.AdminService", "temporal.api.workflowservice.v1.WorkflowService"} {
 		d, err := protoregistry.GlobalFiles.FindDescriptorByName(protoreflect.FullName(svc))
 		if err != nil {
@@ -163,13 +166,13 @@ func TestVerifRepairPaths(t *testing.T) {
 					m122, ok = frontendConvertTo122(v)
 				}
 				if ok && m122 != nil {
-					roots[reflect.TypeOf(m122).Elem()] = true
+					roots[reflect.TypeOf(m122).Elem()] = mt
 				}
 			}
 		}
 	}
 	npaths, missed := 0, 0
-	for rt := range roots {
+	for rt, newType := range roots {
 		for _, path := range vpPaths(rt, map[reflect.Type]bool{}) {
 			for _, depth := range []int{1, 3} {
 				npaths++
@@ -188,6 +191,18 @@ func TestVerifRepairPaths(t *testing.T) {
 				if err != nil || !changed || !vpChainValid(leaf) {
 					missed++
 					fmt.Fprintf(w, "MISSED %s %s depth=%d changed=%v err=%v\n", rt.PkgPath()+"."+rt.Name(), vpPathString(rt, path), depth, changed, err)
+				} else if depth == 1 {
+					// the same damage on the wire, through the entry point the codec uses for this root type (down-conversion
+					// by the admin or the frontend table, repair, re-encoding, decoding): it has to come out decodable
+					leaf2 := &failure122.Failure{Message: samples[(npaths+depth)%len(samples)]}
+					if mm, ok := vpBuild(rt, path, leaf2).Interface().(interface{ Marshal() ([]byte, error) }); ok {
+						if data, merr := mm.Marshal(); merr == nil {
+							if rerr := convertAndRepairInvalidUTF8(data, newType.New().Interface()); rerr != nil {
+								missed++
+								fmt.Fprintf(w, "MISSED %s %s via convertAndRepairInvalidUTF8 into %s: %v\n", rt.PkgPath()+"."+rt.Name(), vpPathString(rt, path), newType.Descriptor().FullName(), rerr)
+							}
+						}
+					}
 				}
 			}
 		}
